@@ -19,6 +19,8 @@ def run(ctx):
             (dict(R=5, B=2, C=3, Cap=2, F=0, kinds=[]), 200, 300),
             (dict(R=3, B=1, C=3, Cap=2, F=0, kinds=[]), 300, 300),
             (dict(R=3, B=2, C=2, Cap=2, F=1, kinds=["crash"]), 150, 200),
+            (dict(R=3, B=4, C=2, Cap=2, F=0, kinds=[]), 30, 60),
+            (dict(R=5, B=6, C=3, Cap=2, F=0, kinds=[]), 30, 60),
             (dict(R=2, B=1, C=1, Cap=1, F=0, kinds=[]), 20, 50),
         ]
     else:
@@ -29,6 +31,7 @@ def run(ctx):
             (dict(R=3, B=2, C=2, Cap=2, F=0, kinds=[], long=2), 20, 40),  # the 2nd record is ultra-long (passed through, still in order)
             (dict(R=4, B=1, C=3, Cap=2, F=0, kinds=[]), 40, 80),       # three full batches in one group, a fourth left over
             (dict(R=3, B=2, C=2, Cap=2, F=1, kinds=["crash"]), 40, 60),   # a worker that raises: success is then only allowed with every record written
+            (dict(R=3, B=4, C=2, Cap=2, F=0, kinds=[]), 10, 30),       # fewer records than one batch, two cores
             (dict(R=2, B=1, C=1, Cap=1, F=0, kinds=[]), 5, 20),
         ]
     for k, nw, ns in cfgs:
